@@ -58,7 +58,15 @@ func runOne(ctx context.Context, s solverSpec, file string, timeoutS int) (statu
 	_ = cmd.Run()
 	ms = time.Since(start).Milliseconds()
 	output = out.String()
-	first := strings.TrimSpace(strings.SplitN(output, "\n", 2)[0])
+	first := ""
+	for _, ln := range strings.Split(output, "\n") {
+		ln = strings.TrimSpace(ln)
+		if ln == "" || strings.HasPrefix(ln, "WARNING") || strings.HasPrefix(ln, "(warning") {
+			continue
+		}
+		first = ln
+		break
+	}
 	switch first {
 	case "unsat", "sat", "unknown":
 		status = first
